@@ -228,9 +228,10 @@ func addSubscription(m *match.Match, s *pb.SubscriptionList, c *matchClient) (re
 		if p == nil {
 			continue
 		}
-		query := prefix
+		// Copy: every query (and its remove function) needs its own slice.
+		query := append([]string{}, prefix...)
 		if origin := p.GetOrigin(); s.Prefix.GetOrigin() == "" && origin != "" {
-			query = append(prefix, origin)
+			query = append(query, origin)
 		}
 		query = append(query, path.ToStrings(p, false)...)
 		removes = append(removes, m.AddQuery(query, c))
